@@ -16,7 +16,8 @@ RULE = (
     "with a reference deep merge and with the path-wise law (child value wins unless both sides are maps; "
     "one-sided keys kept; key set = union at every level); deep copies prove neither argument is mutated. "
     "(equivalence) a dynamic schema with include fields at the root (a chain of two in one scope), in a nested "
-    "and in a doubly nested sub-schema; generated base document and included files are written as real files in "
+    "and in a doubly nested sub-schema; included files may name further files (for the later field of their scope or "
+    "for a nested scope), also overriding the name the base document gave; generated base document and included files are written as real files in "
     "the sandbox in one of the 5 formats, referenced by relative (against a generated start directory) or "
     "absolute paths; loading the document must leave the configuration in exactly the state that load_tree of "
     "the reference-merged tree produces on a fresh configuration of the same schema (or both must fail). "
@@ -25,10 +26,12 @@ RULE = (
     "include in a nested scope."
 )
 ASSUMPTIONS = [
-    "included files carry no include keys themselves (re-inclusion semantics are not stated by the property)",
+    "an included file names further files only for include fields that are still to be processed when it is merged "
+    "(a later include field of its own scope, an include field of a nested scope); what a file that names its own or "
+    "an earlier include field means is not stated by the property",
     "the format layer (C04) is trusted to write the files the harness prepares",
 ]
-REQUIRED = ["format-options", "cwd-decoy", "mode:merge", "mode:load", "mode:missing", "scope:root", "scope:nested", "scope:deep", "chain", "path:relative",
+REQUIRED = ["format-options", "cwd-decoy", "mode:merge", "mode:load", "mode:missing", "scope:root", "scope:nested", "scope:deep", "chain", "chain:named-by-included-file", "link:same", "link:nested", "path:relative",
             "path:absolute", "conflict:map-vs-scalar"] + ["fmt:" + f for f in trees.FORMATS]
 LEVEL_TEXT = (
     "Generated tree pairs/chains and real include files with a 10-line reference merge and a metamorphic "
@@ -72,6 +75,8 @@ def strategy(tier):
         "startdir": st.sampled_from(["inc", "inc/more", None]),
         "prestate": _tree(1),
         "fopts": st.sampled_from([None, None, "app"]),  # yaml root_key / xml root_tag passed to loads() and used for every file
+        "links": st.lists(st.fixed_dictionaries({"from": st.integers(0, 3), "to": st.integers(0, 3), "where": st.sampled_from(["same", "nested"]),
+                                                 "slot": st.integers(0, 1)}), max_size=2),
     })
     missing = st.fixed_dictionaries({
         "mode": st.just("missing"), "fmt": st.sampled_from(trees.FORMATS), "base": _tree(2), "scope": scope,
@@ -250,19 +255,12 @@ def run_case(case, R):
         # -- load with includes ------------------------------------------------------------------
         decoys = []
         base = _strip_inc(copy.deepcopy(case["base"]))
-        expected = copy.deepcopy(base)
         used = set()
         plan = []
+        files = {}   # include reference (as written into a document) -> tree of that file
+        refs = []
+        # every generated file is written; the base document names the first one generated per (scope, field)
         for i, inc in enumerate(case["includes"]):
-            spath = _scope_path(inc["scope"])
-            key = INC_KEYS[inc["slot"]]
-            if (spath, key) in used:
-                continue
-            used.add((spath, key))
-            plan.append((spath, key, inc, i))
-        # write the files and put the include keys into the base document
-        for spath, key, inc, i in plan:
-            tree = _strip_inc(inc["tree"])
             how = inc["how"] if use_startdir else "absolute"
             fname = "f%d.%s" % (i, fmt)
             if how == "relative":
@@ -272,9 +270,27 @@ def run_case(case, R):
                 full, ref = os.path.join(startdir, "rel", fname), os.path.join("rel", fname)
             else:
                 full = ref = os.path.join(d, "inc", "abs-" + fname)
+            refs.append((full, ref, how))
+            files[ref] = _strip_inc(inc["tree"])
+        # an included file may itself name a further file: for a later include field of its own scope, or for an
+        # include field of a scope nested in its own (both are read from the tree merged so far)
+        for link in case.get("links", []):
+            src, dst = link["from"] % len(refs), link["to"] % len(refs)
+            if src == dst:
+                continue
+            rel = () if link["where"] == "same" else ("sub",) if case["includes"][src]["scope"] == "root" else ("deep",)
+            if link["where"] == "nested" and case["includes"][src]["scope"] == "deep":
+                continue
+            if link["where"] == "same" and case["includes"][src]["slot"] == 1:
+                continue  # only a later field of the same scope is still to be processed
+            key = "include2" if link["where"] == "same" else INC_KEYS[link["slot"]]
+            _ensure_scope(files[refs[src][1]], rel)[key] = refs[dst][1]
+            R.label("link:" + link["where"])
+        for i, inc in enumerate(case["includes"]):
+            full, ref, how = refs[i]
             R.label("path:" + ("absolute" if how == "absolute" else "relative"))
             with open(full, "wb") as fp:
-                fp.write(formatter.dumps(dummy, tree))
+                fp.write(formatter.dumps(dummy, files[ref]))
             if how != "absolute":
                 # a file of the same relative name in the process working directory must play no role
                 decoy = os.path.join(os.getcwd(), ref)
@@ -283,31 +299,38 @@ def run_case(case, R):
                     fp.write(formatter.dumps(dummy, {"decoy-from-cwd": True, "a": "decoy"}))
                 decoys.append(decoy)
                 R.label("cwd-decoy")
+            spath = _scope_path(inc["scope"])
+            key = INC_KEYS[inc["slot"]]
+            if (spath, key) in used:
+                continue
+            used.add((spath, key))
+            plan.append((spath, key, inc, i))
             _ensure_scope(base, spath)[key] = ref
-            _ensure_scope(expected, spath)[key] = ref
             R.label("scope:" + inc["scope"])
-        # reference semantics: per scope (root first, then nested scopes), includes in schema order
-        order = sorted(plan, key=lambda t: (len(t[0]), INC_KEYS.index(t[1])))
         if len({t[0] for t in plan}) < len(plan):
             R.label("chain")
-        for spath, key, inc, i in order:
-            node = expected
-            ok = True
-            for k in spath:
-                if not isinstance(node.get(k), dict) or not node.get(k):
-                    ok = False
-                    break
-                node = node[k]
-            if not ok or node.get(key) is None:
-                continue  # an outer include replaced / emptied this scope: its include is not processed
-            merged = ref_merge(node, _strip_inc(inc["tree"]))
-            if spath:
-                parent = expected
-                for k in spath[:-1]:
-                    parent = parent[k]
-                parent[spath[-1]] = merged
-            else:
-                expected = merged
+
+        # reference semantics: in every scope the include fields are taken in schema order, each file name is read
+        # from the tree merged so far and that file's tree is deep-merged into the scope; then the nested scopes
+        merged_files = []
+
+        def ref_process(tree, level):
+            for key in INC_KEYS:
+                name = tree.get(key)
+                if name is None:
+                    continue
+                merged_files.append(name)
+                tree = ref_merge(tree, files[name])
+            child = ("sub", "deep")[level] if level < 2 else None
+            if child and tree.get(child) and isinstance(tree[child], dict):
+                tree = dict(tree)
+                tree[child] = ref_process(tree[child], level + 1)
+            return tree
+
+        expected = ref_process(copy.deepcopy(base), 0)
+        named_by_base = {refs[t[3]][1] for t in plan}
+        if any(name not in named_by_base for name in merged_files):
+            R.label("chain:named-by-included-file")
         doc = formatter.dumps(dummy, base)
 
         real = schema()
